@@ -21,6 +21,8 @@ impl<R> RecoveryHandle<R> {
     /// ordered and may block for an indefinite amount of time.
     pub fn into_inner(mut self) -> R {
         loop {
+            #[cfg(metrics_verif)]
+            metrics::__verif::spin_point(2004);
             match Arc::try_unwrap(self.handle) {
                 Ok(recorder) => break recorder,
                 Err(handle) => {
@@ -70,6 +72,13 @@ impl<R: Recorder + Sync + Send + 'static> RecoverableRecorder<R> {
         (wrapped, RecoveryHandle { handle: self.handle })
     }
 
+    /// Verification hook: the wrapped recorder and its recovery handle, without installing.
+    #[cfg(metrics_verif)]
+    #[doc(hidden)]
+    pub fn __verif_build(self) -> (impl Recorder, RecoveryHandle<R>) {
+        self.build()
+    }
+
     /// Installs the wrapped recorder globally, returning a handle to recover it.
     ///
     /// A weakly-referenced version of the recorder is installed globally, while the original
@@ -103,25 +112,49 @@ impl<R> WeakRecorder<R> {
 
 impl<R: Recorder> Recorder for WeakRecorder<R> {
     fn describe_counter(&self, key: KeyName, unit: Option<Unit>, description: SharedString) {
+        #[cfg(metrics_verif)]
+        metrics::__verif::yield_point(2001);
         if let Some(recorder) = self.recorder.upgrade() {
+            #[cfg(metrics_verif)]
+            let _verif_guard = metrics::__verif::YieldOnDrop(2003);
+            #[cfg(metrics_verif)]
+            metrics::__verif::yield_point(2002);
             recorder.describe_counter(key, unit, description);
         }
     }
 
     fn describe_gauge(&self, key: KeyName, unit: Option<Unit>, description: SharedString) {
+        #[cfg(metrics_verif)]
+        metrics::__verif::yield_point(2001);
         if let Some(recorder) = self.recorder.upgrade() {
+            #[cfg(metrics_verif)]
+            let _verif_guard = metrics::__verif::YieldOnDrop(2003);
+            #[cfg(metrics_verif)]
+            metrics::__verif::yield_point(2002);
             recorder.describe_gauge(key, unit, description);
         }
     }
 
     fn describe_histogram(&self, key: KeyName, unit: Option<Unit>, description: SharedString) {
+        #[cfg(metrics_verif)]
+        metrics::__verif::yield_point(2001);
         if let Some(recorder) = self.recorder.upgrade() {
+            #[cfg(metrics_verif)]
+            let _verif_guard = metrics::__verif::YieldOnDrop(2003);
+            #[cfg(metrics_verif)]
+            metrics::__verif::yield_point(2002);
             recorder.describe_histogram(key, unit, description);
         }
     }
 
     fn register_counter(&self, key: &Key, metadata: &Metadata<'_>) -> Counter {
+        #[cfg(metrics_verif)]
+        metrics::__verif::yield_point(2001);
         if let Some(recorder) = self.recorder.upgrade() {
+            #[cfg(metrics_verif)]
+            let _verif_guard = metrics::__verif::YieldOnDrop(2003);
+            #[cfg(metrics_verif)]
+            metrics::__verif::yield_point(2002);
             recorder.register_counter(key, metadata)
         } else {
             Counter::noop()
@@ -129,7 +162,13 @@ impl<R: Recorder> Recorder for WeakRecorder<R> {
     }
 
     fn register_gauge(&self, key: &Key, metadata: &Metadata<'_>) -> Gauge {
+        #[cfg(metrics_verif)]
+        metrics::__verif::yield_point(2001);
         if let Some(recorder) = self.recorder.upgrade() {
+            #[cfg(metrics_verif)]
+            let _verif_guard = metrics::__verif::YieldOnDrop(2003);
+            #[cfg(metrics_verif)]
+            metrics::__verif::yield_point(2002);
             recorder.register_gauge(key, metadata)
         } else {
             Gauge::noop()
@@ -137,7 +176,13 @@ impl<R: Recorder> Recorder for WeakRecorder<R> {
     }
 
     fn register_histogram(&self, key: &Key, metadata: &Metadata<'_>) -> Histogram {
+        #[cfg(metrics_verif)]
+        metrics::__verif::yield_point(2001);
         if let Some(recorder) = self.recorder.upgrade() {
+            #[cfg(metrics_verif)]
+            let _verif_guard = metrics::__verif::YieldOnDrop(2003);
+            #[cfg(metrics_verif)]
+            metrics::__verif::yield_point(2002);
             recorder.register_histogram(key, metadata)
         } else {
             Histogram::noop()
